@@ -101,16 +101,7 @@ def check(ctx):
         got = [re.sub(r"\s", "", C.text(a)) for a in C.call_args(calls[0])] if calls else None
         ctx.decide(len(calls) == 1 and C.callee_name(calls[0]) == dk and got == want, "C07-R2", C.line(fn), GEO, kern, "%s(%s)" % (dk, ", ".join(want)), "",
                    "%s obtains its bond vectors from %s(%s)" % (kern, C.callee_name(calls[0]) if calls else None, got))
-        loads = {n.get("name"): re.sub(r"\s", "", C.text(C.kids(n)[-1])) for n in C.walk(fn) if n["kind"] == "VarDecl" and n.get("name") in ("v1", "v2", "v3")}
-        w = 3 * npairs
-        exp = {"v%d" % (k + 1): "fvec4(displacements[(%d*j)]" % w if k == 0 else "fvec4(displacements[((%d*j)+%d)]" % (w, 3 * k) for k in range(npairs)}
-        okl = all(loads.get(v, "").startswith(pre) for v, pre in exp.items()) and len(loads) == npairs
-        if okl:
-            for k in range(npairs):
-                t = loads["v%d" % (k + 1)]
-                idx = re.findall(r"displacements\[\(?\(?%d\*j\)?(?:\+(\d+))?\)?\]" % w, t)
-                okl = okl and [int(x or 0) for x in idx] == [3 * k, 3 * k + 1, 3 * k + 2]
-        ctx.decide(okl, "C07-R2", C.line(fn), GEO, kern, "v_k = displacement of pair k (x,y,z)", "", "bond vectors are read back as %s" % loads)
+        # which elements of the displacement / distance buffers a frame reads back is decided by value in R3 (frame 0 and frame 1)
     fn = ctx.py.func(ANG, "_angle")
     cols = {dotted(n.targets[0]): const(n.value.slice.elts[1]) for n in walk_no_nested(fn) if isinstance(n, ast.Assign) and isinstance(n.value, ast.Subscript) and isinstance(n.value.slice, ast.Tuple)}
     ctx.decide(cols.get("ix01") == [1, 0] and cols.get("ix21") == [1, 2], "C07-R2", fn, ANG, "_angle", "reference vectors (1->0) and (1->2)", str(cols), "reference angle uses columns %s" % cols)
@@ -125,17 +116,19 @@ def check(ctx):
     from ..symval import SymExec, State, Ptr, Unsupported as CUnsup
     from ..poly import Poly, Rat
 
-    def frame_body(kern):
+    def frame_body(kern, jval=0):
         fn = cf.function(GEO, kern)
         loops = [n for n in C.walk(fn) if n["kind"] == "ForStmt"]
-        inner = [l for l in loops if re.sub(r"\s", "", C.text(C.kids(l)[1])) == "(j<n_frames)"]
-        if not inner:
-            raise AnalysisError("%s: frame loop not found" % kern)
-        lb = [x for x in inner[0]["inner"] if isinstance(x, dict) and x.get("kind") == "CompoundStmt"][0]
+        conds = [(l, re.match(r"^\((\w+)<(\w+)\)$", re.sub(r"\s", "", C.text(C.kids(l)[1])))) for l in loops]
+        inner = [(l, m.group(1)) for l, m in conds if m and m.group(2) == "n_frames"]
+        outer = [m.group(1) for l, m in conds if m and inner and l is not inner[0][0] and any(x is inner[0][0] for x in C.walk(l))]
+        if not inner or not outer:
+            raise AnalysisError("%s: loops over the angles / dihedrals and over the frames not found" % kern)
+        lb = [x for x in inner[0][0]["inner"] if isinstance(x, dict) and x.get("kind") == "CompoundStmt"][0]
         ex = SymExec(cf, GEO)
         st = State()
-        st.env["j"] = Rat(Poly.const(0))
-        st.env["i"] = Rat(Poly.var("i"))
+        st.env[inner[0][1]] = Rat(Poly.const(jval))     # frame 0, and frame 1 for the per-frame stride of the buffers
+        st.env[outer[0]] = Rat(Poly.var("i"))
         st.env["displacements"] = Ptr("D", 0)
         st.env["distances"] = Ptr("L", 0)
         try:
@@ -158,8 +151,10 @@ def check(ctx):
             if c == 1 and len(m) == 1 and m[0][1] == 1:
                 return ex.opaque.get(m[0][0])
         return None
-    for kern in ("angle", "angle_mic", "angle_mic_triclinic"):
-        fn, ex, outs = frame_body(kern)
+    for kern, jv in [(k_, j_) for k_ in ("angle", "angle_mic", "angle_mic_triclinic") for j_ in (0, 1)]:
+        fn, ex, outs = frame_body(kern, jv)
+        D = [Rat(Poly.var("D[%d]" % (k + 6 * jv))) for k in range(9)]
+        L = [Rat(Poly.var("L[%d]" % (k + 2 * jv))) for k in range(3)]
         v1, v2 = D[0:3], D[3:6]
         want_free = dot(v1, v2) / (L[0] * L[1])
         got = []
@@ -180,8 +175,10 @@ def check(ctx):
         ctx.decide(bool(conds) and not any(conds[0]), "C07-R3", C.line(fn), GEO, kern, "the unclamped value is used only when -1 <= cosine <= 1", "", "path conditions of the unclamped result are %s" % conds)
     fn = ctx.py.func(ANG, "_angle")
     ctx.decide("np.arccos(np.clip((u * v).sum(-1), -1.0, 1.0), out=out)" in src(fn), "C07-R3", fn, ANG, "_angle", "reference clips before arccos", "", "reference angle does not clip the cosine")
-    for kern in ("dihedral", "dihedral_mic", "dihedral_mic_triclinic"):
-        fn, ex, outs = frame_body(kern)
+    for kern, jv in [(k_, j_) for k_ in ("dihedral", "dihedral_mic", "dihedral_mic_triclinic") for j_ in (0, 1)]:
+        fn, ex, outs = frame_body(kern, jv)
+        D = [Rat(Poly.var("D[%d]" % (k + 9 * jv))) for k in range(9)]
+        L = [Rat(Poly.var("L[%d]" % (k + 3 * jv))) for k in range(3)]
         b1, b2, b3 = D[0:3], D[3:6], D[6:9]
         c1, c2 = crs(b2, b3), crs(b1, b2)
         want_p1 = dot(b1, c1) * L[1]
